@@ -69,6 +69,11 @@ CHECKS = {
    text="parseLen_derLen, decode_encode, trailing_rejected, wrong_outer_tag, validation (405/411/413/400 and no lookup started), collect_no_hang / collect_reply / collect_noReply, always_answers (for every method, body, realm, number and behaviour of KDCs and arrival order), faithful, lookup_reply_framed, all_fail_503; legacy_first_nil_wins / legacy_hangs / legacy_all_dials_fail_hangs prove the pinned loop violated the property (D12, D13, D17; repaired). Tie: generated krb5.conf with 1–3 KDCs per realm, fake KDCs whose UDP and TCP endpoints reply / reply partially / close / stay silent / refuse, payloads 0 B – 128 KiB, realm absent/default/other/unknown, every malformed request class; status, body (= Kdc.replyBody of an acceptable reply), bytes received by each KDC, realm isolation and latency are checked.",
    design="6/C20",
    note="Which of several answering KDCs wins is a race: the check accepts any of them (as theorem faithful does). Wall-clock bounds are the harness's (timeout 5 s + margin). Known finding: gofork/asn1 accepts some bodies with inconsistent inner lengths (KNOWN_FINDINGS.txt); the strict decoder of the model rejects them."),
+ "C13": dict(
+   technique="Lean 4 theorems about the callback decision procedure for both session stores (with the response-writer rule that made the pinned code differ per store) + differential correspondence of the real Authenticated/HandleCallback handlers with a fake IdP, and exploration of session-cookie integrity",
+   text="auth_only_if_verified (state issued < 120 s ago — regenerated constant —, code exchanged, ID token present and verified, non-empty user-name claim, session user = that claim), failure_keeps_session and failure_then_connect_redirects (every failure point, store-independent), stale_state_refused, unauthenticated_redirected; legacy_file_store_authenticates proves defect D21 of the pinned callback (repaired). Tie: full browser flows against the real handlers for every failure point × both stores, identities with several claim names, then /connect (200 vs 302, restored user name); every single-character substitution and truncation of a valid session cookie and cross-instance reuse must not authenticate.",
+   design="6/C13",
+   note="ID-token verification is go-oidc's, cookie integrity securecookie's, identity serialisation gob's: those clauses are explored, not proved. State expiry (2 min) is proved on the model and tied by the regenerated constant only (the harness cannot advance go-cache's clock)."),
 }
 
 def entry(pid, c):
